@@ -51,6 +51,25 @@ func (w *World) foldRound(overlay map[string][]byte, st *foldState) map[string][
 		return norm
 	}
 	out := map[string][]byte{}
+	// locals grouped in a struct and only used field by field are split into one variable per field (sroa.go)
+	for _, p := range w.Pkgs {
+		if tab.Funcs[relOfPkg(p.Types)] == nil {
+			continue
+		}
+		for _, f := range p.Syntax {
+			fname := w.Fset.Position(f.Pos()).Filename
+			if strings.HasSuffix(fname, "_test.go") {
+				continue
+			}
+			if b, n := sroaLocals(w.Fset, p.TypesInfo, f); n > 0 {
+				out[fname] = b
+				foldNotes = append(foldNotes, fmt.Sprintf("struct locals: %d local(s) of struct type in %s that are only used field by field are read as one variable per field", n, strings.TrimPrefix(fname, w.Repo+"/")))
+			}
+		}
+	}
+	if len(out) > 0 {
+		return out
+	}
 	// method values of new unexported types (`filler.insert` handed to a function: a closure rewritten as a method of a
 	// small struct) are first written as the closure they stand for - func(args) { return filler.insert(args) } - so that
 	// the method has plain calls only and is folded like any other new helper in the next round
